@@ -65,13 +65,15 @@ var t1Whole = []string{
 	"package g\ntype P Peg {}\nS_1 <- _x\n_x <- 'a'\n",
 	"package g\ntype P Peg {}\nS<-'a'/'b'\n",
 	"package g\ntype P Peg {}\nS\t<-\t'a'\t'b'\n",
+	"package g\ntype P Peg {}\nS <- A B\nA <-\nB <- 'b'\n",                   // an empty body followed by another definition
+	"package g\ntype P Peg {}\nS <- A 'x' /\nA <- # nothing\n\nB <- 'b' A\n", // trailing empty alternative, empty body with a comment
 	"package main\ntype Calc Peg {\n stack []int\n}\nExpr <- Term ('+' Term { p.stack = nil })* !.\nTerm <- <[0-9]+> { _ = text }\n",
 }
 
 // arrowRe matches the arrow of a definition at the start of a line (never one inside a literal).
 var arrowRe = regexp.MustCompile(`(?m)^(\w+[ \t]*)<-`)
 
-var t1Fillers = []string{" ", "\t", "\n", "  \n\t", " # c\n", " // c\n", "\r\n", "#\n"}
+var t1Fillers = []string{" ", "\t", "\n", "  \n\t", " # c\n", " // c\n", "\r\n", "#\n", "\r", " # c\r", " // c\r\n"}
 
 // T1 returns the spelling corpus: every seed, and every seed with each filler inserted at each
 // token boundary (the reader's notion of where white space is allowed). `seedOf` maps each text
